@@ -9,7 +9,7 @@ use std::{
 use std::collections::BTreeSet;
 
 use num_traits::NumOps;
-use num_derive::{FromPrimitive, NumOps, ToPrimitive};
+use num_derive::{FromPrimitive, ToPrimitive};
 use serde::{Deserialize, Serialize};
 use speedy::{Context, Readable, Reader, Writable, Writer};
 use log::error;
@@ -25,13 +25,53 @@ use log::error;
   Eq,
   PartialOrd,
   Ord,
-  NumOps,
   FromPrimitive,
   ToPrimitive,
   Serialize,
   Deserialize,
 )]
 pub struct SequenceNumber(i64);
+
+// Sequence numbers and fragment numbers arrive from the network, so arithmetic
+// on them must not be able to panic on overflow (debug builds) or to wrap
+// around (release builds): Add, Sub and Mul saturate at the limits of the
+// underlying integer type.
+macro_rules! saturating_num_ops {
+  ($t:ident) => {
+    impl std::ops::Add for $t {
+      type Output = Self;
+      fn add(self, other: Self) -> Self {
+        Self(self.0.saturating_add(other.0))
+      }
+    }
+    impl std::ops::Sub for $t {
+      type Output = Self;
+      fn sub(self, other: Self) -> Self {
+        Self(self.0.saturating_sub(other.0))
+      }
+    }
+    impl std::ops::Mul for $t {
+      type Output = Self;
+      fn mul(self, other: Self) -> Self {
+        Self(self.0.saturating_mul(other.0))
+      }
+    }
+    impl std::ops::Div for $t {
+      type Output = Self;
+      fn div(self, other: Self) -> Self {
+        Self(self.0 / other.0)
+      }
+    }
+    impl std::ops::Rem for $t {
+      type Output = Self;
+      fn rem(self, other: Self) -> Self {
+        Self(self.0 % other.0)
+      }
+    }
+  };
+}
+
+saturating_num_ops!(SequenceNumber);
 
 impl SequenceNumber {
   pub const UNKNOWN: Self = Self((u32::MAX as i64) << 32);
@@ -45,7 +85,7 @@ impl SequenceNumber {
   }
 
   pub const fn plus_1(&self) -> Self {
-    SequenceNumber(self.0 + 1)
+    SequenceNumber(self.0.saturating_add(1))
   }
 
   pub fn next(&self) -> SequenceNumber {
@@ -124,7 +164,14 @@ impl Iterator for SequenceNumberRange {
       None
     } else {
       let b = self.begin;
-      self.begin = b + SequenceNumber::new(1);
+      let next = b + SequenceNumber::new(1);
+      if next == b {
+        // b is the largest number there is: make the range empty instead of
+        // stepping past the end of the number space.
+        self.end = b - SequenceNumber::new(1);
+      } else {
+        self.begin = next;
+      }
       Some(b)
     }
   }
@@ -198,11 +245,12 @@ impl Default for SequenceNumber {
   Eq,
   Readable,
   Writable,
-  NumOps,
   FromPrimitive,
   ToPrimitive,
 )]
 pub struct FragmentNumber(u32);
+
+saturating_num_ops!(FragmentNumber);
 
 impl FragmentNumber {
   pub const INVALID: Self = Self(0); // Valid FragmentNumbers start at 1.
@@ -280,7 +328,13 @@ impl Iterator for FragmentNumberRange {
       None
     } else {
       let b = self.begin;
-      self.begin = b + FragmentNumber::new(1);
+      let next = b + FragmentNumber::new(1);
+      if next == b {
+        // b is the largest number there is, see SequenceNumberRange
+        self.end = b - FragmentNumber::new(1);
+      } else {
+        self.begin = next;
+      }
       Some(b)
     }
   }
